@@ -218,40 +218,9 @@ def static_type(e, types):
 
 
 # ---------------------------------------------------------------------- known-finding class predicates
-# All decidable on the program text.  Lean side: the cp classes are the complement of the theorem domain `cpOK` (loop-free
-# bodies with type-correct recorded literals) in lean/LokiModel/C32/Model.lean, `dc-elseif-emptied` is `KnownDcElseIf`
-# (exact: the driver predicts the exception); the Python predicates below are syntactic over-approximations of the
-# failing families, used only to label oracle failures.
-
-def known_cp_loop(prog):
-    """a DO or DO WHILE loop whose body assigns a scalar variable: the loop body is rewritten with the constants
-    known BEFORE the loop, and constants found in the body are carried out of the loop unconditionally"""
-    for u in prog[2:]:
-        arrays = unit_arrays(u)
-        for s in iter_stmts(u[4]):
-            if _h(s) == 'do' and (assigned_scalars(s[5], arrays) - set()):
-                return True
-            if _h(s) == 'while' and assigned_scalars(s[2], arrays):
-                return True
-    return False
-
-
-def known_cp_call(prog):
-    """a CALL passes a scalar variable to a dummy the callee may define (intent other than in): the constants map
-    is not invalidated by calls"""
-    units = {str(u[1]): u for u in prog[2:]}
-    for u in prog[2:]:
-        arrays = unit_arrays(u)
-        for s in iter_stmts(u[4]):
-            if _h(s) != 'callsub' or str(s[1]) not in units:
-                continue
-            g = units[str(s[1])]
-            gd = {str(d[1]): d for d in g[3]}
-            for dummy, actual in zip([str(a) for a in g[2]], s[2:]):
-                if _h(actual) == 'v' and str(actual[1]) not in arrays and str(gd[dummy][3]) != 'in':
-                    return True
-    return False
-
+# All decidable on the program text.  Lean side: the cp classes are outside the theorem domain `cpOKL` (loops, conditionals,
+# assignments with type-correct recorded literals) in lean/LokiModel/C32/Model.lean; the Python predicates below are
+# syntactic over-approximations of the failing families, used only to label oracle failures.
 
 def known_cp_assoc(prog):
     """an ASSOCIATE block that binds a name to a scalar variable and whose body contains a scalar assignment:
@@ -320,30 +289,6 @@ def known_simplify_arith(prog, which):
                         return True
                     if _h(n) == 'neg' and static_type(n, types) == 'real':
                         return True
-    return False
-
-
-def _cond_foldable(e, simp):
-    if _h(e) == 'b':
-        return True
-    if not simp:
-        return False
-    for n in ex_nodes(e):
-        if _h(n) == 'b':
-            return True
-        if _h(n) == 'bin' and str(n[1]) in fir.CMPS and fir._const_int(n[2]) is not None and fir._const_int(n[3]) is not None:
-            return True
-    return False
-
-
-def known_dc_elseif(prog, simp):
-    """an ELSE IF (the else part of an IF is a single IF) whose condition contains a logical literal (or, with
-    use_simplify, a comparison of integer constants): when that inner IF is pruned to nothing the rebuilt outer
-    Conditional gets has_elseif = () and pydantic raises ValidationError"""
-    for u in prog[2:]:
-        for s in iter_stmts(u[4]):
-            if _h(s) == 'if' and len(s[3]) == 1 and _h(s[3][0]) == 'if' and _cond_foldable(s[3][0][1], simp):
-                return True
     return False
 
 
@@ -435,8 +380,7 @@ def known_uv_assoc(prog):
     return False
 
 
-CP_CLASSES = [('cp-loop-assigned-scalar', known_cp_loop), ('cp-call-not-invalidating', known_cp_call),
-              ('cp-associate-alias', known_cp_assoc), ('cp-select-sequential', known_cp_select),
+CP_CLASSES = [('cp-associate-alias', known_cp_assoc), ('cp-select-sequential', known_cp_select),
               ('cp-literal-type-conversion', known_cp_type),
               ('simplify-arithmetic-inherited', lambda p: known_simplify_arith(p, 'cp'))]
 
@@ -450,8 +394,6 @@ def classify(op, flag, prog, kind=''):
             table = [CP_CLASSES[-1]] + CP_CLASSES[:-1]
     elif op == 'dc':
         table = []
-        if kind.startswith('raise validationerror'):
-            table.append(('dc-elseif-emptied', lambda p: known_dc_elseif(p, flag == 'simp')))
         if kind.startswith('raise valueerror'):
             table.append(('associate-rebuild-inherited', known_assoc_nested))
         # symbolic_op(expr, eq, value) of visit_MultiConditional calls simplify even with use_simplify=False
@@ -627,6 +569,8 @@ class _CpGen:
         self.defined = {'n', 'k1', 'k2', 'q1', 's1', 'j1', 'j2'}
         self.loopvars = []
         self.left = rng.randint(6, 16)
+        self.calls = False
+        self.in_while = False
 
     def atom_i(self, lit_p=0.4):
         rng = self.rng
@@ -729,6 +673,26 @@ class _CpGen:
             if not body:
                 return []
             return [[A('do'), A(v), lo, hi, NONE, body]]
+        if self.extras and depth > 0 and not self.in_while and rng.random() < 0.35:
+            # DO WHILE with a counter (the increment comes first, so CYCLE cannot skip it)
+            self.in_while = True
+            d0 = set(self.defined) | {'w1'}
+            self.defined = set(d0)
+            body = [[A('assign'), V('w1'), BIN('add', V('w1'), I(1))]] + self.stmts(depth - 1, True)
+            self.defined = d0
+            self.in_while = False
+            return [[A('assign'), V('w1'), I(0)],
+                    [A('while'), BIN('lt', V('w1'), I(rng.randint(0, 3))), body]]
+        if in_loop and rng.random() < 0.12:
+            return [[A('if'), self.cond(1), [[A(rng.choice(['exit', 'cycle']))]], []]]
+        if self.extras and rng.random() < 0.45:
+            xs = [x for x in self.ints if x in self.defined]
+            if xs:
+                self.calls = True
+                b = self.atom_i()
+                if _h(b) == 'idx':
+                    b = I(2)
+                return [[A('callsub'), A('sub1'), V(rng.choice(xs)), b]]
         if self.extras and depth > 0 and rng.random() < 0.5:
             # SELECT CASE on an atom
             e = self.atom_i(0.2)
@@ -750,7 +714,7 @@ class _CpGen:
         decls = [D('n', 'int', 'in'), D('k1', 'int', 'in'), D('k2', 'int', 'in'), D('q1', 'logical', 'in'),
                  D('s1', 'real', 'in'), D('a1', 'int', 'inout', [(ilit(1), ilit(5))]),
                  D('o1', 'int', 'out'), D('o2', 'int', 'out'), D('l1', 'logical', 'out'), D('r1', 'real', 'out')]
-        decls += [D(x, 'int') for x in self.ints + self.consts + ['i1', 'i2']]
+        decls += [D(x, 'int') for x in self.ints + self.consts + ['i1', 'i2', 'w1']]
         decls += [D(x, 'logical') for x in self.logs] + [D(x, 'real') for x in self.reals]
         if self.has_c1:
             decls.append(D('c1', 'int', 'none', (), I(rng.randint(0, 4))))
@@ -766,7 +730,11 @@ class _CpGen:
         body.append([A('assign'), V('r1'), V(rng.choice(reals)) if reals else V('s1')])
         args = ['n', 'k1', 'k2', 'q1', 's1', 'a1', 'o1', 'o2', 'l1', 'r1']
         u = [A('unit'), A('kernel'), [A(a) for a in args], decls, body]
-        return fir.canon([A('program'), A('kernel'), u])
+        units = [u]
+        if self.calls:
+            units.append([A('unit'), A('sub1'), [A('a'), A('b')], [D('a', 'int', 'inout'), D('b', 'int', 'in')],
+                          [[A('assign'), V('a'), BIN('add', V('b'), I(1))]]])
+        return fir.canon([A('program'), A('kernel')] + units)
 
 
 def gen_cp_program(rng, loops=True, extras=True):
@@ -815,7 +783,7 @@ class C32(Prop):
     findings_module = 'LokiModel.Findings.C32'
     driver = 'Drivers/C32.lean'
     theorems = ['C32_deadcode_sound', 'C32_deadcode_runMain', 'C32_mapper_sound', 'C32_constprop_sound_loopfree',
-                'C32_constprop_invariant']
+                'C32_constprop_invariant', 'C32_constprop_sound', 'C32_loop_body_frame']
     design_ref = 'DESIGN.md 4.F C32'
     level = 'proof'
     level_text = (
@@ -828,11 +796,17 @@ class C32(Prop):
         'under a constants map that holds in the state, outside two type-dependent folds (v - v -> 0, 0 * v -> 0). '
         'C32_constprop_sound_loopfree / C32_constprop_invariant — for loop-free bodies (scalar and element assignments, IF/ELSE, '
         'PRINT, comments) the invariant "every entry of the constants map holds in every state reaching this point" is '
-        'maintained and the rewritten body computes the same run; hypotheses: alias-free state whose scalar cells have their '
-        'declared type (Inv), decidable domain predicate cpOK (excludes the open class cp-literal-type-conversion and the two '
-        'type-dependent folds). NOT covered by a theorem because the unchanged code is wrong there (model mirrors it, '
-        'witness theorems in Findings/C32.lean, oracle classes): DO / DO WHILE bodies, SELECT CASE, ASSOCIATE, CALL under '
-        'constant propagation. Unused variable / dummy argument removal: direct oracle only (no model).')
+        'maintained and the rewritten body computes the same run. C32_constprop_sound (since the fix: commit be169e3 repaired '
+        'visit_Loop / added visit_WhileLoop) — the same through DO and DO WHILE loops with EXIT and CYCLE, any nesting: the map '
+        'the body is visited with (everything the loop defines removed) holds at the top of every iteration because the body '
+        'leaves every other scalar cell alone (C32_loop_body_frame), and the map after the loop (end-of-body map for loops that '
+        'certainly run, agreement of the maps before the loop and at the end of the body otherwise, entry map when the body '
+        'contains EXIT/CYCLE) holds once the loop is left. Hypotheses: alias-free state whose scalar cells have their declared '
+        'type (Inv), map keys are scalars (KeysScalar), decidable domain predicate cpOKL (excludes the open class '
+        'cp-literal-type-conversion and the two type-dependent folds). NOT covered by a theorem: SELECT CASE and ASSOCIATE under '
+        'constant propagation (the unchanged code is wrong there: model mirrors it, witness theorems in Findings/C32.lean, oracle '
+        'classes), CALL (repaired by 7abc3d8, correspondence and oracle only). Unused variable / dummy argument removal: direct '
+        'oracle only (no model).')
     level_note = (
         'The model is hand-written from constant_propagation.py and remove_code.py; the expression mapper is modelled only on '
         'the class where SimplifyMapper acts by literal folding, unit laws and reordering (atoms, -a, a+b, a-b, a*b, comparisons, '
@@ -857,8 +831,7 @@ class C32(Prop):
                          'post: programs inside the theorem domain pass the oracle']
 
     def classes(self):
-        return ['cp-loop-assigned-scalar', 'cp-call-not-invalidating', 'cp-associate-alias', 'cp-select-sequential',
-                'cp-literal-type-conversion', 'simplify-arithmetic-inherited', 'dc-elseif-emptied',
+        return ['cp-associate-alias', 'cp-select-sequential', 'cp-literal-type-conversion', 'simplify-arithmetic-inherited',
                 'uv-do-variable-removed', 'uv-print-only-variable', 'uv-associate-expression-selector',
                 'associate-rebuild-inherited']
 
